@@ -30,6 +30,12 @@ fn directive_bases() -> Vec<(String, String)> {
     }
     let all: String = blocks.iter().map(|(_, b)| *b).collect();
     v.push(("directive-all".into(), format!("{head}{all}}}\n")));
+    // definitions that differ only in case, read through a third spelling (refused today: whatever a front end makes of
+    // such a name, it has to make the same of it every time)
+    v.push((
+        "case-variant-definitions".into(),
+        "party A;\npolicy Pol = 0xABCDEF1234ABCDEF1234ABCDEF1234ABCDEF1234ABCDEF1234ABCDEF1234;\npolicy pol = 0xABCDEF1234ABCDEF1234ABCDEF1234ABCDEF1234ABCDEF1234ABCDEF1235;\ntx t(n: Int) {\n    locals {\n        bonus: 1,\n        Bonus: 2,\n    }\n    input src {\n        from: A,\n        min_amount: Ada(n),\n    }\n    output change {\n        to: A,\n        amount: src - fees,\n        datum: BONUS,\n    }\n    output Change {\n        to: POL,\n        amount: min_utxo(CHANGE),\n    }\n}\n".into(),
+    ));
     // items written more than once: references naming one UTxO twice among others, a signer twice, one metadata label
     // twice, two mints of one asset (whatever is made of them has to be made the same way every time)
     let r = |ix: u32| format!("0x{}#{ix}", "ab".repeat(32));
